@@ -45,8 +45,13 @@ def run(cmd, env=None, cpu=20, stdin=None, cwd=None, max_out=1 << 20, as_mb=4096
         resource.setrlimit(resource.RLIMIT_CORE, (0, 0))
         resource.setrlimit(resource.RLIMIT_FSIZE, (1 << 31, 1 << 31))
         os.setsid()
-    p = subprocess.Popen(cmd, env=e, cwd=cwd, stdin=subprocess.PIPE if stdin is not None else subprocess.DEVNULL,
+    sin = subprocess.DEVNULL
+    if stdin is not None:
+        # through an unlinked temp file: a pipe would deadlock once the script exceeds the pipe buffer while the tool's output is not yet drained
+        sin = tempfile.TemporaryFile(dir=scratch()); sin.write(stdin if isinstance(stdin, bytes) else stdin.encode('utf-8', 'surrogateescape')); sin.seek(0)
+    p = subprocess.Popen(cmd, env=e, cwd=cwd, stdin=sin,
                          stdout=subprocess.PIPE, stderr=subprocess.STDOUT if merge else subprocess.PIPE, preexec_fn=pre)
+    if stdin is not None: sin.close()
     r = Proc(); r.truncated = False
     # drain with cap
     import selectors
@@ -55,11 +60,6 @@ def run(cmd, env=None, cpu=20, stdin=None, cwd=None, max_out=1 << 20, as_mb=4096
     sel.register(p.stdout, selectors.EVENT_READ)
     if not merge:
         bufs[p.stderr] = bytearray(); sel.register(p.stderr, selectors.EVENT_READ)
-    if stdin is not None:
-        try:
-            p.stdin.write(stdin if isinstance(stdin, bytes) else stdin.encode()); p.stdin.close()
-        except BrokenPipeError:
-            pass
     total = 0; nopen = len(bufs)
     while nopen:
         for key, _ in sel.select():
